@@ -8,7 +8,7 @@
 //	enc <seed> <n> <t> <i> <j> <dl> <ls> <mut>
 //	    honest dealer deals to recipient i of list L (n members, threshold t);
 //	    the opener has member j's key, believes the dealer is <dl> = same|other|mem<k>
-//	    and the member list is <ls> = same|swap:<a>:<b>|repl:<m>|drop|add;
+//	    and the member list is <ls> = same|swap:<a>:<b>|repl:<m>|drop|add|neg:<m>|dup:<a>:<b>;
 //	    <mut> = "-" or ';'-separated byte-level changes of the EncryptedDeal:
 //	      xor:<f>:<pos>:<mask>  trunc:<f>:<k>  ext:<f>:<k>  swap:<f+f..>:<src>  addp:<dh|sig>:<coord>
 //	      (f in dh|sig|nonce|cipher; src = r<i2> deal of the same dealer to i2,
@@ -41,7 +41,7 @@ import (
 func init() {
 	h.Register(&h.Prop{
 		ID:         "C08",
-		Rule:       "enc: real EncryptedDeal, presented to every (recipient, opener, believed dealer, believed member list) combination for n<=5 and mutated at byte level (xor masks 01/80/FF at byte positions of all four fields - sampled in quick, every position in thorough -, truncation/extension by 1 and 16, field swaps with a second deal of the same dealer to another recipient / of another dealer / a second deal to the same recipient); pl: plaintext deviations sealed through the hook (bad share, T in {0,1,n+1,2^32-1} with and without matching session id, self-consistent deals (T commitments, fitting share and session id) for every T in 0..n+1 and 2n, wrong index (small, out of range, and equal to the own index modulo 2^32), nil share, nil value, empty plaintext, other-length commitments, foreign session ids, same deal twice); non-trivial = anything but the unmodified deal opened by its addressee; distinct = distinct case line",
+		Rule:       "enc: real EncryptedDeal, presented to every (recipient, opener, believed dealer, believed member list) combination for n<=5 and mutated at byte level (xor masks 01/80/FF at byte positions of all four fields - sampled in quick, every position in thorough -, truncation/extension by 1 and 16, field swaps with a second deal of the same dealer to another recipient / of another dealer / a second deal to the same recipient); pl: plaintext deviations sealed through the hook (bad share, T in {0,1,n+1,2^32-1} with and without matching session id, self-consistent deals (T commitments, fitting share and session id) for every T in 0..n+1 and 2n, wrong index (small, out of range, and equal to the own index modulo 2^32), nil share, nil value, empty plaintext, other-length commitments, foreign session ids, same deal twice); every emitted deal: exact field lengths (129/161/12/plaintext+16), context(dealer, list) compared for every generated pair of (dealer, member list) incl. lists with RELATED keys (a member's key negated - equal x coordinate and equal first 65 bytes -, one key twice), an outside OBSERVER with its own HKDF/AES-GCM trying keys from every public value, their sums and differences, every other member's private key and (1 case in 8) every 32-byte window of the message; non-trivial = anything but the unmodified deal opened by its addressee; distinct = distinct case line",
 		Gen:        gen,
 		Exec:       exec,
 		Exhaustive: func(tier string) bool { return tier == "thorough" },
@@ -235,6 +235,12 @@ func applyList(u *universe, ls string) ([]kyber.Point, []kyber.Scalar) {
 		pubs, secs = pubs[:len(pubs)-1], secs[:len(secs)-1]
 	case "add":
 		pubs, secs = append(pubs, dkgnet.Pub(u.fresh)), append(secs, u.fresh)
+	case "neg": // a RELATED key: member m's key negated (same x coordinate, same first 65 bytes of the encoding)
+		m := h.Atoi(p[1]) % len(pubs)
+		pubs[m], secs[m] = suite.Point().Neg(pubs[m]), suite.Scalar().Neg(secs[m])
+	case "dup": // member a's seat holds member b's key (a list with one key twice; permutations of it via swap)
+		a, b := h.Atoi(p[1])%len(pubs), h.Atoi(p[2])%len(pubs)
+		pubs[a], secs[a] = pubs[b], secs[b]
 	default:
 		panic("bad list variant " + ls)
 	}
@@ -340,6 +346,25 @@ func execEnc(w []string) (res h.Result) {
 	}
 	lpubs, lsecs := applyList(u, ls)
 	listSame := dkgnet.PointsEqual(lpubs, u.pubs)
+	// round 5: judged from the wire, before anybody opens anything
+	{
+		pd, _ := dealer.PlaintextDeal(i)
+		ptb, _ := pd.MarshalBinary()
+		for _, ge := range []*vss.EncryptedDeal{e0, eSecond} {
+			if res.Oracle == "" {
+				res.Oracle = fieldLengths(ge, len(ptb))
+			}
+		}
+		if o := contextOracle(dkgnet.Pub(u.dlong), u.pubs, dpub, lpubs); o != "" {
+			res.Oracle = o
+		}
+		if mut == "-" {
+			if o := observe(e0, dkgnet.Pub(u.dlong), u.pubs, u.secs, i, seed%8 == 0); o != "" {
+				res.Oracle = o
+			}
+		}
+	}
+	wireOracle := res.Oracle
 	v, err := vss.NewVerifier(suite, u.secs[j], dpub, lpubs)
 	if err != nil {
 		res.Impl, res.Class = "err notmember cert=0", "enc-notmember"
@@ -361,6 +386,7 @@ func execEnc(w []string) (res h.Result) {
 	// ---- the property itself, judged from bytes and keys the harness knows ----
 	opened := strings.HasPrefix(out, "ok")
 	switch {
+	case wireOracle != "":
 	case strings.HasPrefix(out, "panic"):
 		res.Oracle = "panic-" + strings.Fields(out)[1] + ": ProcessEncryptedDeal panicked instead of rejecting (" + mutClass + ")"
 	case !pristine && opened:
@@ -631,7 +657,10 @@ func gen(tier string, rng *h.Rng, emit func(string)) {
 				for j := 0; j < n; j++ {
 					dls := []string{"same", "other", fmt.Sprintf("mem%d", j), fmt.Sprintf("mem%d", i)}
 					lss := []string{"same", fmt.Sprintf("swap:%d:%d", i, (i+1)%n), fmt.Sprintf("swap:%d:%d", (j+1)%n, (j+2)%n),
-						fmt.Sprintf("repl:%d", (j+1)%n), "drop", "add"}
+						fmt.Sprintf("repl:%d", (j+1)%n), "drop", "add",
+						// related keys: another member's key negated, the recipient's, the opener's own; one key twice
+						fmt.Sprintf("neg:%d", (j+1)%n), fmt.Sprintf("neg:%d", i), fmt.Sprintf("neg:%d", j),
+						fmt.Sprintf("dup:%d:%d", (j+1)%n, (j+2)%n), fmt.Sprintf("dup:%d:%d", (j+1)%n, j)}
 					for _, dl := range dedupe2(dls) {
 						for _, ls := range dedupe2(lss) {
 							if !thorough && n >= 4 && rng.Intn(6) != 0 && !(dl == "same" && ls == "same") {
